@@ -32,7 +32,7 @@ def _impl_one(args):
 
 
 def run_impl(pairs, jobs=None):
-    jobs = jobs or min(16, os.cpu_count() or 1)
+    jobs = 1 if os.environ.get('VERIF_COVERAGE') else (jobs or min(16, os.cpu_count() or 1))
     if len(pairs) < 400 or jobs == 1:
         return [_impl_one(p) for p in pairs]
     ctx = mp.get_context('fork')
